@@ -175,3 +175,275 @@ def parser_signature(p) -> Dict[str, Any]:
     for name, m in p.message_defs.items():
         sig["messages"][name] = {"id": m.type_id, "hash": m.hash[:8], "size": m.size, "align": m.alignment, "fields": fields(m)}
     return sig
+
+
+# ------------------------------------------------------------------------------------------------
+# signatures extracted from each language output
+# ------------------------------------------------------------------------------------------------
+def compile_all(root_yaml: str, out: str, name: str = "gen", import_coredefs: bool = False, combined: bool = False,
+                auto_pad: bool = True, langs=("python", "c", "javascript", "matlab")):
+    """run the real compiler in-process; returns None or the exception"""
+    from pyrtma.compile import compile as rtcompile
+    cwd = os.getcwd()
+    os.makedirs(out, exist_ok=True)
+    try:
+        with Silence():
+            rtcompile([root_yaml], out, name, python="python" in langs, javascript="javascript" in langs,
+                      matlab="matlab" in langs, c_lang="c" in langs, combined=combined, import_coredefs=import_coredefs,
+                      auto_pad=auto_pad)
+        return None
+    except BaseException as e:  # noqa
+        if isinstance(e, (KeyboardInterrupt,)):
+            raise
+        return e
+    finally:
+        os.chdir(cwd)
+
+
+PY_PROBE = r'''
+import sys, json, ctypes, importlib.util, logging
+logging.disable(logging.CRITICAL)
+sys.path.insert(0, "/repo/src")
+import warnings; warnings.simplefilter("ignore")
+spec = importlib.util.spec_from_file_location(sys.argv[2], sys.argv[1])
+mod = importlib.util.module_from_spec(spec); sys.modules[sys.argv[2]] = mod
+spec.loader.exec_module(mod)
+from pyrtma.message_base import MessageBase
+from pyrtma.message_data import MessageData
+import pyrtma.message as M
+
+def elem(ct):
+    n = 0
+    while hasattr(ct, "_length_") and hasattr(ct, "_type_") and not isinstance(ct._type_, str):
+        n = ct._length_ if n == 0 else n * ct._length_
+        ct = ct._type_
+    return ct, n
+
+def desc(cls):
+    out = []
+    for f in cls._fields_:
+        fname, ct = f[0], f[1]
+        base, n = elem(ct)
+        cf = getattr(cls, fname)
+        d = {"name": fname[1:] if fname.startswith("_") else fname, "count": n, "offset": cf.offset, "size": ctypes.sizeof(ct)}
+        if issubclass(base, ctypes.Structure):
+            d.update({"class": "struct", "struct": getattr(base, "type_name", base.__name__), "width": ctypes.sizeof(base)})
+        else:
+            code = base._type_
+            d.update({"class": "char" if code == "c" else ("float" if code in "fd" else "int"), "width": ctypes.sizeof(base),
+                      "signed": code in "cbhilqfd"})
+        out.append(d)
+    return out
+
+sig = {"structs": {}, "messages": {}, "constants": {}, "strings": {}, "mids": {}, "hids": {}, "registered": []}
+for k, v in vars(mod).items():
+    if k.startswith("_"):
+        continue
+    if isinstance(v, type) and issubclass(v, MessageBase) and v.__module__ == mod.__name__:
+        fields = desc(v)
+        ent = {"size": ctypes.sizeof(v), "type_size": getattr(v, "type_size", None), "hash": "%08x" % v.type_hash, "fields": fields}
+        if issubclass(v, MessageData):
+            ent["id"] = v.type_id
+            sig["messages"][v.type_name] = ent
+            try:
+                if M.get_msg_cls(v.type_id) is v:
+                    sig["registered"].append(v.type_name)
+            except Exception:
+                pass
+        else:
+            sig["structs"][v.type_name] = ent
+    elif k.startswith("MID_") and isinstance(v, int):
+        sig["mids"][k[4:]] = v
+    elif k.startswith("MT_"):
+        pass
+    elif k.isupper() and isinstance(v, bool):
+        pass
+    elif k.isupper() and isinstance(v, (int, float)):
+        sig["constants"][k] = v
+    elif k.isupper() and isinstance(v, str):
+        sig["strings"][k] = v
+print("SIG " + json.dumps(sig))
+'''
+
+
+def sig_python(py_path: str, modname: str = "gen") -> Tuple[Optional[dict], str]:
+    r = subprocess.run(["/venv/bin/python", "-c", PY_PROBE, py_path, modname], capture_output=True, text=True, timeout=300,
+                       env=dict(os.environ, PYTHONHASHSEED="0"))
+    for line in r.stdout.splitlines():
+        if line.startswith("SIG "):
+            return json.loads(line[4:]), ""
+    return None, (r.stderr or r.stdout)[-1500:]
+
+
+def sig_c(header: str, psig: dict, workdir: str, prelude: str = "") -> Tuple[Optional[dict], str]:
+    """compile a probe against the generated header; report sizeof/offsetof/element size/signedness/floatness
+    for every struct / message / field the parser model names"""
+    L = ['#include <stdio.h>', '#include <stddef.h>', prelude, f'#include "{os.path.basename(header)}"',
+         '#define ISFLOAT(x) _Generic((x), float: 1, double: 1, default: 0)',
+         '#define ISSIGNED(x) _Generic((x), char: 1, signed char: 1, short: 1, int: 1, long: 1, long long: 1, float: 1, double: 1, default: 0)',
+         'int main(void){']
+    for kind, prefix in (("structs", ""), ("messages", "MDF_")):
+        for name, d in psig[kind].items():
+            if not d["fields"]:
+                continue
+            cn = prefix + name
+            L.append(f'  {{ {cn} v; printf("T {kind} {name} %zu %zu\\n", sizeof({cn}), _Alignof({cn}));')
+            for f in d["fields"]:
+                fn = f["name"]
+                if f["native"]:
+                    el = f"v.{fn}[0]" if f["count"] else f"v.{fn}"
+                    L.append(f'    printf("F {kind} {name} {fn} %zu %zu %zu %d %d\\n", offsetof({cn}, {fn}), sizeof(v.{fn}), sizeof({el}), ISSIGNED({el}), ISFLOAT({el}));')
+                else:
+                    el = f"v.{fn}[0]" if f["count"] else f"v.{fn}"
+                    L.append(f'    printf("F {kind} {name} {fn} %zu %zu %zu -1 -1\\n", offsetof({cn}, {fn}), sizeof(v.{fn}), sizeof({el}));')
+            L.append("  }")
+    for name in psig["messages"]:
+        L.append(f'#ifdef MT_{name}\n  printf("M {name} %d\\n", (int)MT_{name});\n#else\n  printf("M {name} undefined\\n");\n#endif')
+        L.append(f'#ifdef HASH_{name}\n  printf("H {name} %08x\\n", (unsigned)HASH_{name});\n#else\n  printf("H {name} undefined\\n");\n#endif')
+    for name, v in psig["constants"].items():
+        if isinstance(v, int):
+            L.append(f'#ifdef {name}\n  printf("C {name} %lld\\n", (long long)({name}));\n#else\n  printf("C {name} undefined\\n");\n#endif')
+        else:
+            L.append(f'#ifdef {name}\n  printf("C {name} %.17g\\n", (double)({name}));\n#else\n  printf("C {name} undefined\\n");\n#endif')
+    for name in psig["mids"]:
+        L.append(f'#ifdef MID_{name}\n  printf("I {name} %d\\n", (int)MID_{name});\n#else\n  printf("I {name} undefined\\n");\n#endif')
+    for name in psig["hids"]:
+        L.append(f'#ifdef HID_{name}\n  printf("J {name} %d\\n", (int)HID_{name});\n#else\n  printf("J {name} undefined\\n");\n#endif')
+    L.append("  return 0; }")
+    src = os.path.join(workdir, "probe.c")
+    open(src, "w").write("\n".join(L))
+    exe = os.path.join(workdir, "probe")
+    r = subprocess.run(["gcc", "-std=c11", "-w", "-I", os.path.dirname(header), "-o", exe, src], capture_output=True, text=True, timeout=300)
+    if r.returncode != 0:
+        return None, r.stderr[-1500:]
+    r = subprocess.run([exe], capture_output=True, text=True, timeout=60)
+    sig: Dict[str, Any] = {"structs": {}, "messages": {}, "constants": {}, "mids": {}, "hids": {}, "ids": {}, "hashes": {}}
+    for line in r.stdout.splitlines():
+        p = line.split()
+        if p[0] == "T":
+            sig[p[1]].setdefault(p[2], {"fields": {}}).update({"size": int(p[3]), "align": int(p[4])})
+        elif p[0] == "F":
+            sig[p[1]].setdefault(p[2], {"fields": {}})["fields"][p[3]] = {"offset": int(p[4]), "size": int(p[5]), "width": int(p[6]), "signed": int(p[7]), "float": int(p[8])}
+        elif p[0] == "M":
+            sig["ids"][p[1]] = p[2]
+        elif p[0] == "H":
+            sig["hashes"][p[1]] = p[2]
+        elif p[0] == "C":
+            sig["constants"][p[1]] = p[2]
+        elif p[0] == "I":
+            sig["mids"][p[1]] = p[2]
+        elif p[0] == "J":
+            sig["hids"][p[1]] = p[2]
+    return sig, ""
+
+
+JS_PROBE = r'''
+const path = process.argv[2];
+import(path).then((m) => {
+  const R = m.RTMA;
+  const out = {structs: {}, messages: {}, constants: R.constants || {}, mt: R.MT || {}, mid: R.MID || {}, hid: R.HID || {}, hash: R.HASH || {}, errors: [], shared: []};
+  function desc(o) {
+    const f = [];
+    for (const [k, v] of Object.entries(o)) {
+      let cnt = 0, el = v;
+      if (Array.isArray(v)) { cnt = v.length; el = v[0];
+        if (v.length > 1 && typeof v[0] === "object" && v[0] !== null && v[0] === v[1]) f.push({name: k, shared: true}); }
+      f.push({name: k, count: cnt, kind: (el !== null && typeof el === "object") ? "struct" : typeof el, inner: (el !== null && typeof el === "object" && !Array.isArray(el)) ? desc(el) : undefined});
+    }
+    return f;
+  }
+  for (const [sec, key] of [["SDF", "structs"], ["MDF", "messages"]]) {
+    for (const name of Object.keys(R[sec] || {})) {
+      try {
+        const a = R[sec][name](), b = R[sec][name]();
+        out[key][name] = {fields: desc(a || {}), fresh: a !== b};
+      } catch (e) { out.errors.push(sec + "." + name + ": " + e.message); }
+    }
+  }
+  console.log("SIG " + JSON.stringify(out));
+}).catch((e) => { console.log("LOADERR " + e.message); });
+'''
+
+
+def sig_js(js_path: str, workdir: str) -> Tuple[Optional[dict], str]:
+    mjs = os.path.join(workdir, "gen_probe.mjs")
+    import shutil as _sh
+    _sh.copy(js_path, mjs)
+    probe = os.path.join(workdir, "probe.mjs")
+    open(probe, "w").write(JS_PROBE)
+    r = subprocess.run(["node", probe, mjs], capture_output=True, text=True, timeout=120)
+    for line in r.stdout.splitlines():
+        if line.startswith("SIG "):
+            return json.loads(line[4:]), ""
+        if line.startswith("LOADERR "):
+            return None, line
+    return None, (r.stderr or r.stdout)[-1000:]
+
+
+MATLAB_CLASS = {"int8": (1, True, "int"), "uint8": (1, False, "int"), "int16": (2, True, "int"), "uint16": (2, False, "int"),
+                "int32": (4, True, "int"), "uint32": (4, False, "int"), "int64": (8, True, "int"), "uint64": (8, False, "int"),
+                "single": (4, True, "float"), "double": (8, True, "float")}
+
+
+def sig_matlab(m_path: str) -> Tuple[Optional[dict], List[str]]:
+    """interpret the assignment grammar of the generated .m file; returns (RTMA tree, problems)"""
+    import re
+    env: Dict[str, Any] = {}
+    problems: List[str] = []
+
+    def get(path):
+        cur = env
+        for p in path:
+            if not isinstance(cur, dict) or p not in cur:
+                raise KeyError(".".join(path))
+            cur = cur[p]
+        return cur
+
+    def evalx(x: str):
+        x = x.strip()
+        m = re.fullmatch(r"repmat\((.*),\s*1,\s*(\d+)\)", x)
+        if m:
+            inner = evalx(m.group(1))
+            return {"__rep__": int(m.group(2)), "el": inner}
+        m = re.fullmatch(r"(u?int(?:8|16|32|64)|single|double)\((.*)\)", x)
+        if m:
+            return {"__cls__": m.group(1)}
+        if x in ("struct()", "[]"):
+            return {}
+        if x.startswith("RTMA."):
+            import copy
+            return copy.deepcopy(get(x.split(".")[1:]))
+        if x.startswith('"') or x.startswith("'"):
+            return x.strip("\"'")
+        try:
+            return float(x) if ("." in x or "e" in x.lower()) else int(x)
+        except ValueError:
+            return {"__expr__": x}
+
+    for ln, line in enumerate(open(m_path), 1):
+        s = line.split("%", 1)[0].strip() if not line.strip().startswith("%") else ""
+        if not s or not s.startswith("RTMA"):
+            continue
+        m = re.fullmatch(r"(RTMA(?:\.[A-Za-z_]\w*)*)\s*=\s*(.*?);?", s)
+        if not m:
+            continue
+        path = m.group(1).split(".")[1:]
+        try:
+            val = evalx(m.group(2))
+        except KeyError as e:
+            problems.append(f"line {ln}: {m.group(1)} uses {e.args[0]} before it is defined")
+            continue
+        cur = env
+        ok = True
+        for p in path[:-1]:
+            if p not in cur or not isinstance(cur[p], dict):
+                if p not in cur:
+                    problems.append(f"line {ln}: {m.group(1)} assigns into undefined {p}")
+                    cur[p] = {}
+                else:
+                    ok = False
+                    break
+            cur = cur[p]
+        if ok and path:
+            cur[path[-1]] = val
+    return env, problems
